@@ -5,6 +5,5 @@ package main
 type RVal struct{}
 type RType struct{ t interface{ String() string } }
 
-func (eng *Engine) initStubs2() {}
 
 func (eng *Engine) computeInjectedImpl(repo string) error { return nil }
